@@ -6,22 +6,22 @@ namespace ImathVerif.Gen
 open ImathVerif
 
 /-- extracted from the C++ template at T = Sym; 2 path(s) -/
-def Line3.set {α : Type} [Add α] [Sub α] [Mul α] [Div α] [Neg α] [LT α] [LE α] [DecidableLT α] [DecidableLE α] [DecidableEq α] [OfNat α 0] [OfNat α 2] (tmin : α) (sqrt : α → α) (p0 : V3 α) (p1 : V3 α) : (Line3 α) :=
+def Line3.set {α : Type} [Add α] [Sub α] [Mul α] [Div α] [Neg α] [LT α] [LE α] [DecidableLT α] [DecidableLE α] [DecidableEq α] [OfNat α 0] [OfNat α 2] (tmin : α) (tmax : α) (sqrt : α → α) (p0 : V3 α) (p1 : V3 α) : (Line3 α) :=
   let t7 := (p1.z - p0.z)
   let t8 := (p1.y - p0.y)
   let t9 := (p1.x - p0.x)
-  let t10 := (V3.length tmin sqrt ⟨t9, t8, t7⟩)
+  let t10 := (V3.length tmin tmax sqrt ⟨t9, t8, t7⟩)
   if t10 = (0 : α) then
     ⟨⟨p0.x, p0.y, p0.z⟩, ⟨t9, t8, t7⟩⟩
   else
     ⟨⟨p0.x, p0.y, p0.z⟩, ⟨(t9 / t10), (t8 / t10), (t7 / t10)⟩⟩
 
 /-- extracted from the C++ template at T = Sym; 2 path(s) -/
-def Line3.ctor {α : Type} [Add α] [Sub α] [Mul α] [Div α] [Neg α] [LT α] [LE α] [DecidableLT α] [DecidableLE α] [DecidableEq α] [OfNat α 0] [OfNat α 2] (tmin : α) (sqrt : α → α) (p0 : V3 α) (p1 : V3 α) : (Line3 α) :=
+def Line3.ctor {α : Type} [Add α] [Sub α] [Mul α] [Div α] [Neg α] [LT α] [LE α] [DecidableLT α] [DecidableLE α] [DecidableEq α] [OfNat α 0] [OfNat α 2] (tmin : α) (tmax : α) (sqrt : α → α) (p0 : V3 α) (p1 : V3 α) : (Line3 α) :=
   let t7 := (p1.z - p0.z)
   let t8 := (p1.y - p0.y)
   let t9 := (p1.x - p0.x)
-  let t10 := (V3.length tmin sqrt ⟨t9, t8, t7⟩)
+  let t10 := (V3.length tmin tmax sqrt ⟨t9, t8, t7⟩)
   if t10 = (0 : α) then
     ⟨⟨p0.x, p0.y, p0.z⟩, ⟨t9, t8, t7⟩⟩
   else
@@ -82,23 +82,23 @@ def Line3.closestPointToLine {α : Type} [Add α] [Sub α] [Mul α] [Div α] [Ne
       ⟨t87, t86, t85⟩
 
 /-- extracted from the C++ template at T = Sym; 1 path(s) -/
-def Line3.distanceToPoint {α : Type} [Add α] [Sub α] [Mul α] [Div α] [Neg α] [LT α] [LE α] [DecidableLT α] [DecidableLE α] [DecidableEq α] [OfNat α 0] [OfNat α 2] (tmin : α) (sqrt : α → α) (l : Line3 α) (p : V3 α) : α :=
+def Line3.distanceToPoint {α : Type} [Add α] [Sub α] [Mul α] [Div α] [Neg α] [LT α] [LE α] [DecidableLT α] [DecidableLE α] [DecidableEq α] [OfNat α 0] [OfNat α 2] (tmin : α) (tmax : α) (sqrt : α → α) (l : Line3 α) (p : V3 α) : α :=
   let t37 := ((((p.x - l.pos.x) * l.dir.x) + ((p.y - l.pos.y) * l.dir.y)) + ((p.z - l.pos.z) * l.dir.z))
-  (V3.length tmin sqrt ⟨(((t37 * l.dir.x) + l.pos.x) - p.x), (((t37 * l.dir.y) + l.pos.y) - p.y), (((t37 * l.dir.z) + l.pos.z) - p.z)⟩)
+  (V3.length tmin tmax sqrt ⟨(((t37 * l.dir.x) + l.pos.x) - p.x), (((t37 * l.dir.y) + l.pos.y) - p.y), (((t37 * l.dir.z) + l.pos.z) - p.z)⟩)
 
 /-- extracted from the C++ template at T = Sym; 3 path(s) -/
-def Line3.distanceToLine {α : Type} [Add α] [Sub α] [Mul α] [Div α] [Neg α] [LT α] [LE α] [DecidableLT α] [DecidableLE α] [DecidableEq α] [OfNat α 0] [OfNat α 2] (tmin : α) (sqrt : α → α) (l1 : Line3 α) (l2 : Line3 α) : α :=
+def Line3.distanceToLine {α : Type} [Add α] [Sub α] [Mul α] [Div α] [Neg α] [LT α] [LE α] [DecidableLT α] [DecidableLE α] [DecidableEq α] [OfNat α 0] [OfNat α 2] (tmin : α) (tmax : α) (sqrt : α → α) (l1 : Line3 α) (l2 : Line3 α) : α :=
   let t97 := ((l1.dir.x * l2.dir.y) - (l1.dir.y * l2.dir.x))
   let t100 := ((l1.dir.z * l2.dir.x) - (l1.dir.x * l2.dir.z))
   let t103 := ((l1.dir.y * l2.dir.z) - (l1.dir.z * l2.dir.y))
-  let t104 := (V3.length tmin sqrt ⟨t103, t100, t97⟩)
+  let t104 := (V3.length tmin tmax sqrt ⟨t103, t100, t97⟩)
   let t105 := (l2.pos.z - l1.pos.z)
   let t106 := (l2.pos.y - l1.pos.y)
   let t107 := (l2.pos.x - l1.pos.x)
   let t112 := (((t107 * l1.dir.x) + (t106 * l1.dir.y)) + (t105 * l1.dir.z))
   let t128 := ((((t103 * t107) + (t100 * t106)) + (t97 * t105)) / t104)
   if t104 = (0 : α) then
-    (V3.length tmin sqrt ⟨(((t112 * l1.dir.x) + l1.pos.x) - l2.pos.x), (((t112 * l1.dir.y) + l1.pos.y) - l2.pos.y), (((t112 * l1.dir.z) + l1.pos.z) - l2.pos.z)⟩)
+    (V3.length tmin tmax sqrt ⟨(((t112 * l1.dir.x) + l1.pos.x) - l2.pos.x), (((t112 * l1.dir.y) + l1.pos.y) - l2.pos.y), (((t112 * l1.dir.z) + l1.pos.z) - l2.pos.z)⟩)
   else
     if (0 : α) ≤ t128 then
       t128
